@@ -6,7 +6,7 @@ from vlib import to_tangelo_gate, dump_tangelo_gate, dump_model_gate, gates_equa
 from fractions import Fraction
 
 CLAIM = {
- "text": "Proof (Lean 4), partial: the specification semantics of a run conditioned on an outcome string (project on each measurement, run the gate list the outcome selects, nested) is the model runBranch; proved: the two projections of a measurement are complementary and their probabilities add up to the probability before the measurement (every register size), hence by induction over the number of measurements the branch probabilities of all outcome strings sum to the initial norm whenever the segments between measurements preserve the norm - which is proved for every gate list of the gate set inside the register (isometry theorem of C01), giving the end-to-end statement for gates / MEASURE / gates / CMEASURE with two alternative gate lists / gates; the probability-weighted branch distributions add up to the dephased (unconditioned) distribution of one measurement; splitting a joint frequency dictionary conserves the total. The tie to the code is a correspondence check on all outcome strings of random circuits with MEASURE / CMEASURE gates (dictionary and function control, nested), comparing branch statevector, probability, final frequencies, applied gates, and mid-circuit/final splits with the model's exact values; finite shots are checked for support and totals only.",
+ "text": "Proof (Lean 4), partial: the specification semantics of a run conditioned on an outcome string (project on each measurement, run the gate list the outcome selects, nested) is the model runBranch; proved: the two projections of a measurement are complementary and their probabilities add up to the probability before the measurement (every register size), hence by induction over the number of measurements the branch probabilities of all outcome strings sum to the initial norm whenever the segments between measurements preserve the norm - which is proved for every gate list of the gate set inside the register (isometry theorem of C01), giving the end-to-end statement for every program that interleaves gate lists, MEASURE and CMEASURE with alternatives nested to any depth (inductive family GateProgram); the probability-weighted branch distributions add up to the dephased (unconditioned) distribution of one measurement; splitting a joint frequency dictionary conserves the total. The tie to the code is a correspondence check on all outcome strings of random circuits with MEASURE / CMEASURE gates (dictionary and function control, nested), comparing branch statevector, probability, final frequencies, applied gates, and mid-circuit/final splits with the model's exact values; finite shots are checked for support and totals only.",
  "note": "Trusted: Lean kernel + standard axioms; cirq simulators; numpy; the sampler (only deterministic facts checked). Norm preservation of each unitary gate is proved separately (C01 isometry lemmas) and enters as a hypothesis of the summation theorem. ClassicalControl classes with internal state are exercised only through a stateless mapping.",
  "technique": "Lean 4 theorems on projection/branch algebra + branch-by-branch exact correspondence against the cirq backend"}
 
